@@ -341,7 +341,7 @@ func judgeLin(c *linCase, recs [][]linRec) *linVerdict {
 				}
 			}
 		}
-		res, _ := porcupine.CheckOperationsVerbose(regModel, ops, 60*time.Second)
+		res, _ := porcupine.CheckOperationsVerbose(regModel, ops, 10*time.Second)
 		if res == porcupine.Ok {
 			continue
 		}
@@ -387,6 +387,7 @@ func stageLin(run *ev.Run, p params, ids *idCollector) {
 			defer wg.Done()
 			for j := range jobs {
 				verdicts <- judgeLin(j.c, j.recs)
+				tick()
 			}
 		}()
 	}
@@ -432,6 +433,7 @@ func stageLin(run *ev.Run, p params, ids *idCollector) {
 	}()
 	for _, c := range cases {
 		jobs <- job{c, execLin(c, ids)}
+		tick()
 	}
 	close(jobs)
 	wg.Wait()
